@@ -882,7 +882,7 @@ class SyncManager(Runnable):
         try:
             ret = self._resolve_conflict(*fhs)
 
-            if ret:
+            if ret is not None:
                 if not isinstance(ret, tuple):
                     log.error("resolve conflict should return a tuple of 2 values, got %s(%s)", ret, type(ret))
                     ret = None
